@@ -27,11 +27,12 @@ template<class Sk, class T, int KIND> struct QObj : Obj {
   typedef typename SerdeOf<T>::type SD;
   Sk sk; int next;
   explicit QObj(Sk&& s): sk(std::move(s)), next(1000) {}
-  template<int K = KIND> typename std::enable_if<K == 0 || K == 2, std::string>::type extra() { return "|eps=" + str(sk.get_normalized_rank_error(false)) + "," + str(sk.get_normalized_rank_error(true)); }
-  template<int K = KIND> typename std::enable_if<K == 1, std::string>::type extra() { return std::string("|hra=") + str(sk.is_HRA()) + "|rb=" + str(sk.get_rank_lower_bound(0.3, 2)) + "," + str(sk.get_rank_upper_bound(0.7, 2)); }
-  std::string obs() {
+  template<int K = KIND> static typename std::enable_if<K == 0 || K == 2, std::string>::type extra(const Sk& sk) { return "|eps=" + str(sk.get_normalized_rank_error(false)) + "," + str(sk.get_normalized_rank_error(true)); }
+  template<int K = KIND> static typename std::enable_if<K == 1, std::string>::type extra(const Sk& sk) { return std::string("|hra=") + str(sk.is_HRA()) + "|rb=" + str(sk.get_rank_lower_bound(0.3, 2)) + "," + str(sk.get_rank_upper_bound(0.7, 2)); }
+  std::string obs() { return obs_of(sk); }
+  static std::string obs_of(const Sk& sk) {
     std::string o = "k=" + str(sk.get_k()) + "|n=" + str(sk.get_n()) + "|ret=" + str(sk.get_num_retained()) + "|empty=" + str(sk.is_empty()) + "|est=" + str(sk.is_estimation_mode());
-    o += extra();
+    o += extra(sk);
     if (sk.is_empty()) return o;
     o += "|min=" + vstr(sk.get_min_item()) + "|max=" + vstr(sk.get_max_item()) + "|items=";
     std::vector<std::string> it; size_t guard = (size_t)sk.get_num_retained() + 4;
